@@ -30,7 +30,8 @@ PARTIAL_KINDS = ("render", "include")
 
 
 class Frame:
-    __slots__ = ("kind", "site", "body", "count", "children", "parent", "chain_counts", "mode", "site_max")
+    __slots__ = ("kind", "site", "body", "count", "children", "parent", "chain_counts", "mode", "site_max",
+                 "length")
 
     def __init__(self, kind: str, site: Any, body: Any, parent: "Frame | None"):
         self.kind = kind
@@ -42,6 +43,9 @@ class Frame:
         self.chain_counts: dict[tuple[Any, ...], int] | None = None
         self.site_max: dict[tuple[Any, ...], int] | None = None
         self.mode = ""
+        # the length the engine declared for this loop activation: the argument of the
+        # raise_for_loop_limit call made while this frame was the innermost one
+        self.length: int | None = None
 
 
 class BufRec:
@@ -76,6 +80,8 @@ class Mon:
         self.cross_partial = False  # some nest with >= 2 real loops crosses a partial boundary
         self.max_partial_depth = 0
         self.max_copy_depth = 0
+        self.interrupted: list[str] = []  # loop activations that ran fewer bodies than their declared length
+        self.loop_checks = 0
         self.extend_depth: dict[int, int] = {}
         self.max_extend_depth = 0  # nested extend() activations on one context
         self.max_engine_stack = 0  # Python frames that are not the monitor's, at the deepest partial
@@ -129,6 +135,9 @@ class Mon:
             if sm is not None and f.count > sm.get(key, 0):
                 sm[key] = f.count
         st.pop()
+        if f.kind in LOOP_KINDS and f.length is not None and f.count < f.length:
+            # left early: break / continue propagating out of it (or an error)
+            self.interrupted.append(_label(f, max(f.length, 2)))
         if f.parent is not None:
             f.parent.children.append(f)
         else:
@@ -189,18 +198,31 @@ class Mon:
             self.body_exec(st[-1], buf, None)
 
     # ---------------------------------------------------------------- post-hoc loop facts
+    def on_loop_check(self, length: int) -> None:
+        self.loop_checks += 1
+        st = self.stack
+        if st:
+            top = st[-1]
+            if top.kind in LOOP_KINDS and top.length is None:
+                top.length = length
+
     def declared_product(self) -> int:
-        """M: max over loop activations of the product of the iteration counts of the
-        activation and of every enclosing loop activation (== the product of lengths
-        the engine documents, when no loop was left early)."""
+        """M: max over loop activations of the product of the declared lengths of the
+        activation and of every enclosing loop activation - the count the engine documents
+        and checks up front.  The declared length of an activation is the length the engine
+        itself passed to its limit check on entry (at least the bodies actually run), so a
+        loop left early by break still counts with its full length."""
         best = 0
         work = [(r, 1, 0, False) for r in self.roots]
         while work:
             f, prod, nloops, crossed = work.pop()
-            if f.kind in LOOP_KINDS and f.count > 0:
+            factor = 0
+            if f.kind in LOOP_KINDS:
+                factor = max(f.count, f.length or 0)
+            if factor > 0:
                 # (a loop with no iteration contributes nothing: what runs below its frame
                 # is its `else` branch, outside the loop)
-                prod *= f.count
+                prod *= factor
             if f.kind in LOOP_KINDS and f.count > 1:
                 if nloops >= 1 and (crossed or f.kind in PARTIAL_KINDS):
                     self.cross_partial = True
@@ -208,7 +230,7 @@ class Mon:
                 crossed = crossed or f.kind in PARTIAL_KINDS
             elif nloops and f.kind in ("render", "include", "call", "block", "extends"):
                 crossed = True
-            if prod > best and f.kind in LOOP_KINDS and f.count > 0:
+            if prod > best and factor > 0:
                 best = prod
             for c in f.children:
                 work.append((c, prod, nloops, crossed))
@@ -535,6 +557,15 @@ def install() -> None:
                 m.extend_depth[k] = d - 1
 
     RC.extend = rc_extend
+    o_rfl = RC.raise_for_loop_limit
+
+    def rc_rfl(self, length=1):  # noqa: ANN001
+        m = MON
+        if m is not None:
+            m.on_loop_check(length)
+        return o_rfl(self, length)
+
+    RC.raise_for_loop_limit = rc_rfl
     RC.__init__ = rc_init
     RC.assign = rc_assign
     RC.get_output_buffer = rc_gob
